@@ -43,6 +43,9 @@ def runs(tier, seed):
                 # the fresh build on emptied memo tables (it cannot inherit what the history left there), also beyond the
                 # 1000-point switch of the recursion's algorithm
                 dict(n=3, dims=1, grid=4, kind="generic", depth=5, cap=None, independent=True),
+                # the trees as they are between a graft and the samplers' update() call
+                dict(n=3, dims=1, grid=3, kind="generic", depth=6, cap=None, raw_grafts=True),
+                dict(n=4, dims=1, grid=3, kind="generic", depth=5, cap=None, raw_grafts=True, full_only=True),
                 dict(n=3, dims=2, grid=1000, kind="peaked", depth=4, cap=None, independent=True),
                 dict(n=4, dims=1, grid=1001, kind="peaked", depth=4, cap=None, independent=True, full_only=True)]
     return [dict(n=3, dims=1, grid=4, kind="generic", depth=12, cap=None),
@@ -53,6 +56,8 @@ def runs(tier, seed):
             dict(n=4, dims=1, grid=3, kind="dup", depth=6, cap=None, full_only=True),
             dict(n=4, dims=1, grid=3, kind="generic", depth=7, cap=600000, full_only=True),
             dict(n=3, dims=1, grid=4, kind="generic", depth=8, cap=None, independent=True),
+            dict(n=3, dims=1, grid=3, kind="generic", depth=12, cap=None, raw_grafts=True),
+            dict(n=4, dims=1, grid=3, kind="generic", depth=6, cap=None, raw_grafts=True, full_only=True),
             dict(n=3, dims=2, grid=1000, kind="peaked", depth=6, cap=None, independent=True),
             dict(n=4, dims=1, grid=1001, kind="peaked", depth=5, cap=None, independent=True, full_only=True)]
 
@@ -62,6 +67,8 @@ def run_one(chk, r, seed, pid="C06", make_inv=make_invariant, grammar_kw=None):
     gk = dict(grammar_kw or {})
     if r.get("full_only"):
         gk["moves_on_full_only"] = True
+    if r.get("raw_grafts"):
+        gk["raw_grafts"] = True
     g = editbfs.Grammar(data, **gk)
     if r.get("independent") and make_inv is make_invariant:
         make_inv = make_invariant_independent
@@ -299,7 +306,7 @@ def replay(path, make_inv=make_invariant):
         return 1 if r["problems"] else 0
     r = rp["search"]
     data = oracle.make_data(r["n"], dims=r["dims"], grid=r["grid"], kind=r["kind"], seed=rp.get("seed", 0), outlier_prob=r.get("outlier", 0.0))
-    g = editbfs.Grammar(data, moves_on_full_only=bool(r.get("full_only")))
+    g = editbfs.Grammar(data, moves_on_full_only=bool(r.get("full_only")), raw_grafts=bool(r.get("raw_grafts")))
     hist = [_tup(e) for e in rp["history"]]
     t = g.rebuild(hist)
     ev = _tup(rp["event"])
